@@ -2,72 +2,28 @@
 pub mod rt;
 pub mod support;
 use std::panic::AssertUnwindSafe;
-#[path = "gen/g0it.rs"] mod g0it;
-#[path = "gen/g0ia.rs"] mod g0ia;
-#[path = "gen/g0et.rs"] mod g0et;
-#[path = "gen/g0ea.rs"] mod g0ea;
-#[path = "gen/g2it.rs"] mod g2it;
-#[path = "gen/g2ia.rs"] mod g2ia;
-#[path = "gen/g2et.rs"] mod g2et;
-#[path = "gen/g2ea.rs"] mod g2ea;
-#[path = "gen/g3it.rs"] mod g3it;
-#[path = "gen/g3ia.rs"] mod g3ia;
-#[path = "gen/g3et.rs"] mod g3et;
-#[path = "gen/g3ea.rs"] mod g3ea;
-#[path = "gen/g5it.rs"] mod g5it;
-#[path = "gen/g5ia.rs"] mod g5ia;
-#[path = "gen/g5et.rs"] mod g5et;
-#[path = "gen/g5ea.rs"] mod g5ea;
-#[path = "gen/g6it.rs"] mod g6it;
-#[path = "gen/g6ia.rs"] mod g6ia;
-#[path = "gen/g6et.rs"] mod g6et;
-#[path = "gen/g6ea.rs"] mod g6ea;
-#[path = "gen/g7it.rs"] mod g7it;
-#[path = "gen/g7et.rs"] mod g7et;
-#[path = "gen/g9it.rs"] mod g9it;
-#[path = "gen/g9ia.rs"] mod g9ia;
-#[path = "gen/g9et.rs"] mod g9et;
-#[path = "gen/g9ea.rs"] mod g9ea;
-#[path = "gen/mtyt.rs"] mod mtyt;
-#[path = "gen/mtya.rs"] mod mtya;
+#[path = "gen/c06mact.rs"] mod c06mact;
+#[path = "gen/c06maca.rs"] mod c06maca;
 
 fn run_seq(m: &str, p: &str, input: &str) -> String {
     match (m, p) {
-        ("g0it", "S") => rt::guarded(AssertUnwindSafe(|| rt::show(g0it::SParser::new().parse(input)))),
-        ("g0ia", "S") => rt::guarded(AssertUnwindSafe(|| rt::show(g0ia::SParser::new().parse(input)))),
-        ("g2it", "S") => rt::guarded(AssertUnwindSafe(|| rt::show(g2it::SParser::new().parse("n", &7u8, input)))),
-        ("g2ia", "S") => rt::guarded(AssertUnwindSafe(|| rt::show(g2ia::SParser::new().parse("n", &7u8, input)))),
-        ("g3it", "S") => rt::guarded(AssertUnwindSafe(|| rt::show(g3it::SParser::new().parse(&|n: usize| n as u64, input)))),
-        ("g3ia", "S") => rt::guarded(AssertUnwindSafe(|| rt::show(g3ia::SParser::new().parse(&|n: usize| n as u64, input)))),
-        ("g5it", "S") => rt::guarded(AssertUnwindSafe(|| rt::show(g5it::SParser::new().parse(input)))),
-        ("g5ia", "S") => rt::guarded(AssertUnwindSafe(|| rt::show(g5ia::SParser::new().parse(input)))),
-        ("g6it", "S") => rt::guarded(AssertUnwindSafe(|| rt::show(g6it::SParser::new().parse("n", &7u8, input)))),
-        ("g6ia", "S") => rt::guarded(AssertUnwindSafe(|| rt::show(g6ia::SParser::new().parse("n", &7u8, input)))),
-        ("g7it", "S") => rt::guarded(AssertUnwindSafe(|| rt::show(g7it::SParser::new().parse(&|n: usize| n as u64, input)))),
-        ("g9it", "S") => rt::guarded(AssertUnwindSafe(|| rt::show(g9it::SParser::new().parse(input)))),
-        ("g9ia", "S") => rt::guarded(AssertUnwindSafe(|| rt::show(g9ia::SParser::new().parse(input)))),
-        ("mtyt", "S") => rt::guarded(AssertUnwindSafe(|| rt::show(mtyt::SParser::new().parse(input)))),
-        ("mtya", "S") => rt::guarded(AssertUnwindSafe(|| rt::show(mtya::SParser::new().parse(input)))),
+        ("c06mact", "S") => rt::guarded(AssertUnwindSafe(|| rt::show(c06mact::SParser::new().parse(input)))),
+        ("c06mact", "P") => rt::guarded(AssertUnwindSafe(|| rt::show(c06mact::PParser::new().parse(input)))),
+        ("c06mact", "O") => rt::guarded(AssertUnwindSafe(|| rt::show(c06mact::OParser::new().parse(input)))),
+        ("c06maca", "S") => rt::guarded(AssertUnwindSafe(|| rt::show(c06maca::SParser::new().parse(input)))),
+        ("c06maca", "P") => rt::guarded(AssertUnwindSafe(|| rt::show(c06maca::PParser::new().parse(input)))),
+        ("c06maca", "O") => rt::guarded(AssertUnwindSafe(|| rt::show(c06maca::OParser::new().parse(input)))),
         _ => "NOPARSER".to_string(),
     }
 }
 fn run_mt(m: &str, p: &str, threads: usize, rounds: usize, inputs: &[String]) -> String {
     match (m, p) {
-        ("g0it", "S") => { let p = g0it::SParser::new(); rt::shared(&p, inputs, threads, rounds, |p, s| rt::guarded(AssertUnwindSafe(|| rt::show(p.parse(s))))) }
-        ("g0ia", "S") => { let p = g0ia::SParser::new(); rt::shared(&p, inputs, threads, rounds, |p, s| rt::guarded(AssertUnwindSafe(|| rt::show(p.parse(s))))) }
-        ("g2it", "S") => { let p = g2it::SParser::new(); rt::shared(&p, inputs, threads, rounds, |p, s| rt::guarded(AssertUnwindSafe(|| rt::show(p.parse("n", &7u8, s))))) }
-        ("g2ia", "S") => { let p = g2ia::SParser::new(); rt::shared(&p, inputs, threads, rounds, |p, s| rt::guarded(AssertUnwindSafe(|| rt::show(p.parse("n", &7u8, s))))) }
-        ("g3it", "S") => { let p = g3it::SParser::new(); rt::shared(&p, inputs, threads, rounds, |p, s| rt::guarded(AssertUnwindSafe(|| rt::show(p.parse(&|n: usize| n as u64, s))))) }
-        ("g3ia", "S") => { let p = g3ia::SParser::new(); rt::shared(&p, inputs, threads, rounds, |p, s| rt::guarded(AssertUnwindSafe(|| rt::show(p.parse(&|n: usize| n as u64, s))))) }
-        ("g5it", "S") => { let p = g5it::SParser::new(); rt::shared(&p, inputs, threads, rounds, |p, s| rt::guarded(AssertUnwindSafe(|| rt::show(p.parse(s))))) }
-        ("g5ia", "S") => { let p = g5ia::SParser::new(); rt::shared(&p, inputs, threads, rounds, |p, s| rt::guarded(AssertUnwindSafe(|| rt::show(p.parse(s))))) }
-        ("g6it", "S") => { let p = g6it::SParser::new(); rt::shared(&p, inputs, threads, rounds, |p, s| rt::guarded(AssertUnwindSafe(|| rt::show(p.parse("n", &7u8, s))))) }
-        ("g6ia", "S") => { let p = g6ia::SParser::new(); rt::shared(&p, inputs, threads, rounds, |p, s| rt::guarded(AssertUnwindSafe(|| rt::show(p.parse("n", &7u8, s))))) }
-        ("g7it", "S") => { let p = g7it::SParser::new(); rt::shared(&p, inputs, threads, rounds, |p, s| rt::guarded(AssertUnwindSafe(|| rt::show(p.parse(&|n: usize| n as u64, s))))) }
-        ("g9it", "S") => { let p = g9it::SParser::new(); rt::shared(&p, inputs, threads, rounds, |p, s| rt::guarded(AssertUnwindSafe(|| rt::show(p.parse(s))))) }
-        ("g9ia", "S") => { let p = g9ia::SParser::new(); rt::shared(&p, inputs, threads, rounds, |p, s| rt::guarded(AssertUnwindSafe(|| rt::show(p.parse(s))))) }
-        ("mtyt", "S") => { let p = mtyt::SParser::new(); rt::shared(&p, inputs, threads, rounds, |p, s| rt::guarded(AssertUnwindSafe(|| rt::show(p.parse(s))))) }
-        ("mtya", "S") => { let p = mtya::SParser::new(); rt::shared(&p, inputs, threads, rounds, |p, s| rt::guarded(AssertUnwindSafe(|| rt::show(p.parse(s))))) }
+        ("c06mact", "S") => { let p = c06mact::SParser::new(); rt::shared(&p, inputs, threads, rounds, |p, s| rt::guarded(AssertUnwindSafe(|| rt::show(p.parse(s))))) }
+        ("c06mact", "P") => { let p = c06mact::PParser::new(); rt::shared(&p, inputs, threads, rounds, |p, s| rt::guarded(AssertUnwindSafe(|| rt::show(p.parse(s))))) }
+        ("c06mact", "O") => { let p = c06mact::OParser::new(); rt::shared(&p, inputs, threads, rounds, |p, s| rt::guarded(AssertUnwindSafe(|| rt::show(p.parse(s))))) }
+        ("c06maca", "S") => { let p = c06maca::SParser::new(); rt::shared(&p, inputs, threads, rounds, |p, s| rt::guarded(AssertUnwindSafe(|| rt::show(p.parse(s))))) }
+        ("c06maca", "P") => { let p = c06maca::PParser::new(); rt::shared(&p, inputs, threads, rounds, |p, s| rt::guarded(AssertUnwindSafe(|| rt::show(p.parse(s))))) }
+        ("c06maca", "O") => { let p = c06maca::OParser::new(); rt::shared(&p, inputs, threads, rounds, |p, s| rt::guarded(AssertUnwindSafe(|| rt::show(p.parse(s))))) }
         _ => "NOPARSER".to_string(),
     }
 }
